@@ -4,7 +4,8 @@
      environment.go: vmControlState, captureControlState, restoreControlState, Run,
      EvalCallExpression / Apply / expressions.go:SexpLazyArg.Force (capture .. restore),
      CallUserFunction (capture, push address, host function, recover, restore),
-     functions.go:EvalFunction (CallFunction + Run, NO capture/restore of its own),
+     functions.go:EvalFunction (capture, CallFunction + Run, restore on error; before commit
+       4b37dbf it had no capture/restore: the former finding evalfunction-no-restore),
      generator.go:GenerateForLoop (loop stack push with deferred pop).
    The stacks hold abstract items; what an instruction does in between is arbitrary
    (push / pop / jump), except that a frame never pops below the depths it was entered
@@ -63,7 +64,8 @@ Definition restore (v : saved) (c : ctrl) : ctrl :=
 Inductive kind :=
 | KCaptured    (* EvalCallExpression, Apply, Force: capture; pc := -2; CallFunction; Run; restore on error *)
 | KUser        (* CallUserFunction: capture; push address; host function (may re-enter); restore on error or panic *)
-| KEvalFn.     (* EvalFunction: CallFunction; Run; nothing else *)
+| KEvalFn.     (* EvalFunction (since 4b37dbf): capture; CallFunction (pc unchanged); Run; restore on error;
+                  on success the state the callee's return left is kept *)
 
 Inductive act :=
 | APush (k : stk) (x : Z)
@@ -141,9 +143,11 @@ Section Exec.
             | Crash => Crash
             end
           | KEvalFn =>
+            let st := capture c in
             match run body (call_function 9 c) with
             | OK c1 => OK c1
-            | o => o
+            | Err c1 => Err (restore st c1)
+            | Crash => Crash
             end
           end)
     end.
@@ -191,13 +195,11 @@ Open Scope string_scope.
 
 (* verified by reading (docs/C05.md lists the argument for each):
    - top-level entries: the Run they start is the outermost one, which restores by itself;
-   - EvalFunction: no restore of its own; a caller that RETURNS the error is covered by
-     CallUserFunction's / Run's restore (a caller that handles it is not: known finding
-     evalfunction-no-restore);
    - SourceExpressions: nothing is pushed between its entry and Run, so Run's own restore
-     puts the stacks back; pc / curfunc are put back by the defer. *)
+     puts the stacks back; pc / curfunc are put back by the defer.
+   (EvalFunction was on an allow-list "covered by its caller" until commit 4b37dbf gave it
+    capture + restore; it now passes the structural test like Apply.) *)
 Definition toplevel_entries : list string := ["Zlisp.EvalString"; "Zlisp.EvalExpressions"; "runScript"].
-Definition covered_by_caller : list string := ["EvalFunction"].
 Definition restores_by_defer : list string := ["Zlisp.SourceExpressions"].
 
 Definition mem (s : string) (l : list string) : bool := existsb (String.eqb s) l.
@@ -206,7 +208,6 @@ Definition reentry_ok (r : reentry) : bool :=
   r_dup_recv r
   || (Nat.eqb (r_captures r) 1 && Nat.eqb (r_guarded r) (r_runs r) && Nat.leb 1 (r_restores r))
   || (mem (r_fn r) toplevel_entries && Nat.eqb (r_captures r) 0)
-  || (mem (r_fn r) covered_by_caller && Nat.eqb (r_runs r) 1)
   || (mem (r_fn r) restores_by_defer && r_defer_pc r).
 
 (* every function that captures also restores; CallUserFunction recovers panics *)
@@ -215,4 +216,4 @@ Definition capture_ok (s : capture_site) : bool :=
   && (negb (String.eqb (c_fn s) "Zlisp.CallUserFunction") || c_recovers s).
 
 Definition expected_capture_sites : list string :=
-  ["SexpLazyArg.Force"; "Zlisp.Apply"; "Zlisp.CallUserFunction"; "Zlisp.EvalCallExpression"; "Zlisp.Run"].
+  ["EvalFunction"; "SexpLazyArg.Force"; "Zlisp.Apply"; "Zlisp.CallUserFunction"; "Zlisp.EvalCallExpression"; "Zlisp.Run"].
